@@ -134,6 +134,14 @@ func runConc(tr *vutil.Trace, sc concScenario) {
 	}
 	followed := make([]string, 0)
 	for _, id := range sc.Sched {
+		if id == 3 {
+			// a lock-free reader between two critical sections of the other threads: the block
+			// proposer packing, the rpc layer listing the pool
+			pool.PackForCast(3, stateDB)
+			pool.GetReceived()
+			followed = append(followed, "read")
+			continue
+		}
 		th := ths[id]
 		if th == nil {
 			th = start(id)
